@@ -63,12 +63,18 @@ def run(ctx):
     # ---------------------------------------------------------------- R1
     iv = md.func("Molecular_Dynamics_Basic.initialize_velocity")
     g = build_cfg(iv)
-    user_ifs = [n for n in g.nodes if n.kind == "if" and norm(n.expr).replace(" ", "") == "torch.is_tensor(molecule.velocities)"]
+    # every statement that can run when the caller supplied velocities, whichever way the test is written (guard clause, negated nesting, flag): three-valued exploration of
+    # the flow graph under `torch.is_tensor(molecule.velocities)` = True
+    from .c18 import reach_under
+    atom = "torch.is_tensor(molecule.velocities)"
+    user_ifs = [n for n in g.nodes if n.kind in ("if", "while") and n.expr is not None and any(norm(x) == atom for x in ast.walk(n.expr))]
     if not user_ifs:
         raise AnalysisError("initialize_velocity: user-velocity branch not found")
-    for n in user_ifs:
-        true_succ = [b for b, lab in g.succ[n.id] if lab == "true"]
-        region = g.reachable(true_succ, include_src=True)
+    seen_, used_ = reach_under(g, {atom: True})
+    if atom not in used_:
+        raise AnalysisError("initialize_velocity: the test on user-supplied velocities is not decided by the exploration")
+    for n in user_ifs[:1]:
+        region = seen_
         offenders = []
         for i in region:
             x = g.nodes[i]
@@ -430,8 +436,12 @@ def _r6_dof_and_forwarding(ctx, repo):
                     ctx.check(ok and three, "R6", m, st, q, st, f"{q}: n_dof = 3 x (real atoms of each molecule) - constraints",
                               f"{q}: n_dof = `{norm(st.value)}` does not count the real atoms of each molecule (molecule.num_atoms): in a padded batch the smaller molecules are drawn "
                               f"and thermostatted with the degrees of freedom of the largest one (they start too hot while the reported temperature looks right)")
-    if n < 2:
+    if n < 2 and not _cv["dof"][0]:
         raise AnalysisError("set_dof definitions not found")
+    if n < 2:
+        # the overrides delegate instead of assigning n_dof themselves: the count of real atoms is decided by the interpreted verdict above (padded batch of 5 real atoms in
+        # molecules of padded size 7, three engines x damping x constraints)
+        ctx.ok("R6", MD, "n_dof assignments delegated; real-atom count decided by the interpreted set_dof verdict", nontrivial=False)
     # num_atoms itself counts species > 0 per molecule
     mm = repo.mod("seqm/Molecule.py")
     na = [st for st in ast.walk(mm.tree) if isinstance(st, ast.Assign) and any(norm(t) == "self.num_atoms" for t in st.targets)]
